@@ -112,6 +112,9 @@ func ByteStreamConsumer(opts ...byteStreamOpt) Consumer {
 			}
 
 			v := reflect.Indirect(reflect.ValueOf(data))
+			if !v.IsValid() {
+				return errors.New("nil destination for ByteStreamConsumer")
+			}
 			t := v.Type()
 
 			switch {
@@ -194,6 +197,9 @@ func ByteStreamProducer(opts ...byteStreamOpt) Producer {
 
 		default:
 			v := reflect.Indirect(reflect.ValueOf(data))
+			if !v.IsValid() {
+				return errors.New("nil data for ByteStreamProducer")
+			}
 			t := v.Type()
 
 			switch {
